@@ -872,8 +872,10 @@ func (v *Verifier) verifyFunc(fullKey string, fc *FuncContract) (rep *FuncReport
 				Func: e.funcKey, Text: en.Text, Props: unionProps(orProps(en.Props, fc.Props)), Mode: fc.Mode, exec: e, Pos: fn.Pos(), Strings: fc.Strings})
 		}
 		// the exit must be reachable (must-fail probe on `ensures false`)
-		e.obls = append(e.obls, &Obligation{Name: e.funcKey + "/cover/exit", Kind: "cover", Goal: tTrue, Hyp: ret.pc, Cover: true,
+		if !fc.NoReturn {
+			e.obls = append(e.obls, &Obligation{Name: e.funcKey + "/cover/exit", Kind: "cover", Goal: tTrue, Hyp: ret.pc, Cover: true,
 			Func: e.funcKey, Text: "a return is reachable under the contract", Props: fc.Props, Mode: fc.Mode, exec: e, Pos: fn.Pos()})
+		}
 		if !fc.ModAll {
 			e.frameObligations(e.atLastUnlock(ret), s, fc)
 		}
